@@ -19,6 +19,10 @@ Enumerated (reflectively, see mc/c10_lib.py):
               entry points of a scene - quick: getter -> mutator pairs of the Points scene and helper pairs;
               thorough: for every pair scene, every pair in which A or B is an entry point not already
               paired in an earlier scene.
+  sessions    everything above on Workspace(path, mode="r"); in addition every mutating entry point at depth 1
+              (incl. "assign None" variants) on the two other ways of holding a read-only handle: constructed with
+              the default mode then close() + open(mode="r"), and the OSError fallback of Workspace.open
+              (quick: one representative per key; fallback on four scenes; thorough: all scenes).
   Every sequence is followed by close() and is executed on the real library in mode "r"; the read-write
   twin (same bytes, same ops, mode "r+") decides which ops "would have to write".
 Oracle: clauses bytes-unchanged, handle-stays-read-only, must-raise, helper-leaves-source-unchanged
@@ -41,6 +45,7 @@ PAIR_SCENES = [
     "AirborneTEMReceivers", "AirborneTEMTransmitters", "LargeLoopGroundTEMReceivers", "TipperReceivers", "PotentialElectrode",
     "CurrentElectrode", "MTReceivers", "PropertyGroup",
 ]
+DATA_SCENES = tuple(n for n in fixtures.FACTORIES if fixtures.kind_of(n) == "data")
 QUICK_FALLBACK_SCENES = ("Points", "FloatData", "ReferencedData", "DrillholeGroup")
 DEDUP_TARGETS = ("DrillholeGroup",)
 # quick tier: second ops of a pair = every helper that mutates + one representative of every write path
@@ -71,8 +76,13 @@ def replay(history):
     return [tuple(v) for v in lib.run_case(history, need_twin=mode)["viol"]]
 
 
-def op_key(op):
-    return (op["owner"], op["m"], op["k"], op.get("v", 0), op["storage"], "type" if op["t"].endswith("type") else "")
+def op_key(op, scene=""):
+    """Representative key of the quick tier.  Entity types are keyed by target, data types also by the data class
+    of the scene (colour maps, value maps and units only mean something for some of them)."""
+    extra = ""
+    if op["t"].endswith("type") or "." in op["t"]:
+        extra = op["t"] + (":" + scene if scene in DATA_SCENES else "")
+    return (op["owner"], op["m"], op["k"], op.get("v", 0), op["storage"], extra)
 
 
 def _family(clause):
@@ -88,7 +98,7 @@ def enumerate_cases(ctx, described):
     singles, seen = [], set()
     for d in described:
         for op in d["ops"] + (helpers if d["scene"] in ("Points", "ALL", "DrillholeGroup") else []):
-            key = op_key(op)
+            key = op_key(op, d["scene"])
             if ctx.quick and d["scene"] == "ALL":  # the big file: helpers and the mutating Workspace entry points only
                 if op["role"] != "mutator" and op["k"] != "helper":
                     continue
@@ -109,9 +119,9 @@ def enumerate_cases(ctx, described):
                 if ctx.quick:
                     if session == "fallback_r" and d["scene"] not in QUICK_FALLBACK_SCENES:
                         continue
-                    if (op_key(op), session) in seen_s:
+                    if (op_key(op, d["scene"]), session) in seen_s:
                         continue
-                seen_s.add((op_key(op), session))
+                seen_s.add((op_key(op, d["scene"]), session))
                 sessions.append({"scene": d["scene"], "ops": [_strip(op)], "session": session})
     pairs, paired = [], set()
     by_scene = {d["scene"]: d for d in described}
